@@ -374,6 +374,19 @@ def c15(tier: str) -> PropResult:
            "rule": info["space"] + "; non-trivial = populations of at least 3 individuals", "exhaustive": True,
            "model": {"module": "NBC.tla", "cfg": info["cfg"],
                      "laws": ["BestIsSeed", "SeedsAreKept", "ScaleTranslateInvariant", "MirrorInvariant", "FactorMonotone"]}}
+    from .mod_table import nbc_batch_stage
+    nb = nbc_batch_stage(tier)
+    for name in nb.get("model_violations", []):
+        viols.append(Violation("C15", f"model:{name}", f"NBCBatch.tla law {name} violated on the definition", {}))
+    brep = nb.get("replay", {"violations": [], "evaluations": 0})
+    viols += [v for v in _viol("C15", brep["violations"]) if v.clause.startswith("C15_")]
+    cov["larger_populations"] = {"module": "NBCBatch.tla", "cases": nb.get("cases"), "sizes": brep.get("sizes"),
+                                 "replayed_calls": brep.get("evaluations"), "sample": brep.get("sample"),
+                                 "rule": "generated populations of 8-60 individuals on a line (uniform / clustered / dense, distinct ranks or tie "
+                                         "groups away from the best and the cut), expected seeds computed by TLC, replayed under Pythagorean "
+                                         "embeddings (all distances exact), 3 images per case, permuted order, both directions"}
+    cov["traces_validated_against_impl"] += nb.get("cases") or 0
+    cov["evaluations"] += brep.get("evaluations", 0)
     return PropResult(viols, cov, [
         "exact scales only (powers of two), so the oracle of TLC is exact; rows where the threshold test is an exact equality "
         "are compared only when the float arithmetic is exact (m in {1,2,4}, dyadic factor), otherwise they are run for crashes only",
